@@ -309,9 +309,14 @@ def _unit(draw):
         a = draw(st.sampled_from(ARGS))
         m = 1000 + g.n * 17
         cmp_ = " > 0" if o == "Where" else ""
-        body = f"q = ds.{o}(lambda {a}: len(f'{{{a}}})') * 0 + {a} * 2 + {m}{cmp_})"
-        sup = False
-        label = "f-string-with-bracket-in-body"
+        # a string INSIDE the lambda whose text has unbalanced brackets: plain strings, and f-strings whose literal pieces are
+        # single bracket characters (python >= 3.12 tokenizes an f-string into several tokens)
+        lit = draw(st.sampled_from(["f'{A})'", "f'[{A}, {A})'", "f'({A}'", "f'{A}[{A}'", "f'{{{A}'", "f'{A}}}'", 'f"){A}("', "'(('", "')]'", "'lambda q: ('"])).replace("{A}", "{" + a + "}")
+        body = f"q = ds.{o}(lambda {a}: len({lit}) * 0 + {a} * 2 + {m}{cmp_})"
+        if draw(st.booleans()):
+            o2 = draw(st.sampled_from([x for x in OPS if x != o]))
+            body += f".{o2}({g.lam(o2, draw(st.sampled_from([x for x in ARGS if x != a])))[0]})"  # a second call on the line, told apart by method and argument name
+        label = "string-or-f-string-with-bracket-in-body"
     elif pick == 35:
         o = g.op()
         a = draw(st.sampled_from(ARGS))
